@@ -80,6 +80,8 @@ pub struct WorldState {
 }
 
 pub struct World {
+    /// set by the runner at the end of a phase: daemon loops finish their current call and return
+    pub stop_daemons: std::cell::Cell<bool>,
     pub factory: DomainParticipantFactoryAsync<SimTransport>,
     pub st: RefCell<WorldState>,
 }
@@ -207,7 +209,7 @@ macro_rules! unit {
 impl World {
     pub fn new() -> Rc<World> {
         let factory = DomainParticipantFactoryAsync::new(core::SimRuntime, [0, 0, 0, 1], [10, 0, 0, 1], SimTransport, Default::default());
-        Rc::new(World { factory, st: RefCell::new(WorldState::default()) })
+        Rc::new(World { stop_daemons: std::cell::Cell::new(false), factory, st: RefCell::new(WorldState::default()) })
     }
 
     fn writer(&self, id: u32) -> Option<WriterInfo> {
@@ -736,7 +738,13 @@ impl World {
                 let m = if *read_only { Masks { ss: 2, vs: 0, is: 0 } } else { Masks::default() };
                 loop {
                     let _ = self.read_call(cid, *r, &k, i32::MAX, &m, &H::None, 0).await;
+                    if self.stop_daemons.get() {
+                        return Res::Unit(Ok(()));
+                    }
                     sleep_ns(*period_us * 1000).await;
+                    if self.stop_daemons.get() {
+                        return Res::Unit(Ok(()));
+                    }
                 }
             }
             Op::Status { kind, id, what } => self.status(kind, *id, what).await,
